@@ -326,8 +326,10 @@ impl<const BITS: usize, const LIMBS: usize> Uint<BITS, LIMBS> {
 
     #[inline(always)]
     const fn masked(mut self) -> Self {
+        // Going through `Self::LIMBS` makes this fail to compile when `LIMBS`
+        // does not match `BITS`, like `from_limbs` does.
         if Self::SHOULD_MASK {
-            self.limbs[LIMBS - 1] &= Self::MASK;
+            self.limbs[Self::LIMBS - 1] &= Self::MASK;
         }
         self
     }
